@@ -332,6 +332,16 @@ func blockCommentState(nesting int) stateFn {
 		r := l.next()
 		switch r {
 		case EOF:
+			// The comment is unterminated. Still emit the pending content,
+			// so that all of the input is covered by tokens.
+			// The parser reports the missing comment end.
+			beforeEOFOffset := l.prevEndOffset
+			if beforeEOFOffset-l.startOffset > 0 {
+				eofOffset := l.endOffset
+				l.endOffset = beforeEOFOffset
+				l.emitType(TokenBlockCommentContent)
+				l.endOffset = eofOffset
+			}
 			return nil
 		case '/':
 			beforeSlashOffset := l.prevEndOffset
